@@ -183,7 +183,7 @@ fn cond_text(c: Cond, truth: bool, elif: bool, hash: bool, salt: usize) -> Strin
             Cond::Lit => format!("{}elif {}", dot, if truth { 1 } else { 0 }),
             Cond::Value => format!("{}elif {}", dot, value),
             Cond::Equ => format!("{}elif k_cond {} 4", dot, if truth { "<" } else { ">" }),
-            Cond::Unparseable => format!("{}elif {}", dot, ["@1 > 2", ")(", "(", "1 +"][salt % 4]),
+            Cond::Unparseable => format!("{}{} {}", dot, if salt % 3 == 2 { "ELIF" } else { "elif" }, ["@1 > 2", ")(", "(", "1 +"][salt % 4]),
             _ => format!("{}elif undefined_cond_sym", dot),
         };
     }
@@ -197,7 +197,7 @@ fn cond_text(c: Cond, truth: bool, elif: bool, hash: bool, salt: usize) -> Strin
         Cond::HashIf => format!("#if {}", if truth { "2 - 1" } else { "1 - 1" }),
         Cond::Value => format!(".if {}", value),
         Cond::Unevaluable => ".if undefined_cond_sym".to_string(),
-        Cond::Unparseable => [".if @0 == 1", ".if (", ".ifdef", ".if 1 +", "#if )("][salt % 5].to_string(),
+        Cond::Unparseable => [".if @0 == 1", ".if (", ".ifdef", ".if 1 +", "#if )(", ".IF (", ".IfDef", "#IF 1 +"][salt % 8].to_string(),
     }
 }
 
@@ -277,8 +277,23 @@ impl CondModel {
             all.push(Act::Endif);
         }
         let nall = all.len();
+        // labels in front of directive lines that belong to no unselected arm (the directives of a
+        // conditional whose surroundings are assembled) are defined: name and word address
+        let mut live_labels: Vec<(String, usize)> = vec![];
         for (i, a) in all.iter().enumerate() {
             let hash = i % 3 == 1;
+            {
+                let dsalt = salt / 7 + i;
+                let live_line = !s.exited
+                    && match a {
+                        Act::If(..) | Act::Exit => assembling(&s),
+                        _ => s.stack.last().map(|f| f.parent).unwrap_or(false),
+                    };
+                if live_line && dsalt % 9 >= 7 {
+                    live_labels.push((format!("dl_{}", dsalt), code.len() / 2));
+                    flattened.push_str(&format!("dl_{}:\n", dsalt));
+                }
+            }
             match a {
                 Act::If(c, t) => {
                     program.push_str(&decorate(cond_text(*c, *t, false, false, salt + i), salt / 7 + i));
@@ -357,6 +372,15 @@ impl CondModel {
         }
         if density != 0 {
             features.insert("adjacent-directives");
+        }
+        if !s.exited && !live_labels.is_empty() {
+            features.insert("label-on-directive-line");
+            for (name, addr) in &live_labels {
+                let l = format!(".dw {}\n", name);
+                program.push_str(&l);
+                flattened.push_str(&l);
+                code.extend([(*addr & 0xff) as u8, (*addr >> 8) as u8]);
+            }
         }
         Rendered { program, flattened, code, markers, features, cut: (cut_a, cut_b) }
     }
